@@ -12,6 +12,7 @@ CONSTANTS
   AllowStop = TRUE
   AllowCtrlC = TRUE
   AllowError = TRUE
+  AliveCheck = TRUE
 INVARIANT ProtocolOK
 INVARIANT ClosedAtEnd
 INVARIANT NoProblemLost
